@@ -343,7 +343,7 @@ NAMES = ["a", "b", "c", "d"]
 cref = st.integers(0, 40)
 cseg = st.sampled_from(NAMES)
 cpath = st.one_of(cseg, cseg, cseg, st.lists(cseg, min_size=2, max_size=3).map("/".join), cseg.map(lambda s: "/" + s))
-fresh = st.sampled_from(["e", "f", "g", "h", "n1", "n2", "ab", "aa", "b-1"])
+fresh = st.sampled_from(["e", "f", "g", "h", "n1", "n2", "ab", "aa", "b-1", "xmetador_y", "non_metador_data"])  # (not reserved: no segment STARTS with metador_)
 dpath = st.one_of(fresh, fresh, cseg, st.tuples(cseg, fresh).map("/".join), fresh.map(lambda s: "/" + s))
 cvalue = st.one_of(st.builds(lambda v: {"t": "int", "v": v}, st.integers(0, 9)),
                    st.builds(lambda v: {"t": "void", "v": v}, st.sampled_from(["00", "6100", "ff00fe00", "7f00"])),
